@@ -175,11 +175,18 @@ func ruleStreamClose(c *Ctx) {
 			recvV = info.Defs[f.Decl.Recv.List[0].Names[0]]
 		}
 		isDeferClose := func(m *Node) bool {
-			ds, ok := m.Ast.(*ast.DeferStmt)
-			if !ok {
+			var call *ast.CallExpr
+			switch st := m.Ast.(type) {
+			case *ast.DeferStmt:
+				call = st.Call
+			case *ast.ExprStmt:
+				// an explicit receiver.Close() in front of an early return
+				call, _ = st.X.(*ast.CallExpr)
+			}
+			if call == nil {
 				return false
 			}
-			se, ok := ast.Unparen(ds.Call.Fun).(*ast.SelectorExpr)
+			se, ok := ast.Unparen(call.Fun).(*ast.SelectorExpr)
 			return ok && se.Sel.Name == "Close" && identObj(info, se.X) == recvV
 		}
 		seen := g.Reach([]*Node{g.Entry}, isDeferClose, nil)
@@ -187,7 +194,7 @@ func ruleStreamClose(c *Ctx) {
 			c.R.Violate("R-SIB/stream", p.Pos(f.Node()), f.Name, "pump closes the broker stream on every exit",
 				"StartStream can return without closing the streamer's quit channel (e.g. when the stream cannot be opened because the plugin is already dead): Send/Recv, and therefore broker Accept/Dial, then block forever", p.PathTo(seen, g.Exit))
 		} else {
-			c.R.Hold("R-SIB/stream", p.Pos(f.Node()), f.Name, "pump closes the broker stream on every exit", "defer receiver.Close() is registered before any return", true)
+			c.R.Hold("R-SIB/stream", p.Pos(f.Node()), f.Name, "pump closes the broker stream on every exit", "receiver.Close() is deferred, or called, before any return", true)
 		}
 	}
 	if n < 2 {
